@@ -427,10 +427,48 @@ fn check_text(ctx: &mut Ctx, rep: &mut Report, label: &str, text: &str, expected
     }
 }
 
+/// a value whose serialisation fails partway (after some output has been produced)
+struct Poison(u8);
+impl serde::Serialize for Poison {
+    fn serialize<S: serde::Serializer>(&self, s: S) -> Result<S::Ok, S::Error> {
+        use serde::ser::{Error, SerializeSeq};
+        let mut seq = s.serialize_seq(None)?;
+        seq.serialize_element(&1u8)?; seq.serialize_element("x")?;
+        if self.0 == 0 { return Err(S::Error::custom("poisoned element")); }
+        // a map with a non-string key: serde_json refuses it after `[1,"x",{` has been written
+        let mut m = std::collections::BTreeMap::new(); m.insert((1u8, 2u8), 3u8);
+        seq.serialize_element(&m)?;
+        seq.end()
+    }
+}
+
+/// ids are a function of the value alone: a refused computation (a value that fails to serialise partway) in between
+/// must not change what the next computation or verification on the same thread returns
+fn statefulness_probe(rep: &mut Report) {
+    let samples: Vec<JValue> = ["null", "1", "\"s\"", "[1,2,3]", "{\"a\":{\"b\":[true,null]}}", "18446744073709551615", "\"é\""].iter().filter_map(|t| serde_json::from_str::<JValue>(t).ok()).collect();
+    for (i, jv) in samples.iter().enumerate() {
+        let before = guarded(|| value_to_json_cid(jv).map(|c| c.get_inner().to_string()).map_err(|e| e.to_string()));
+        for which in 0..2u8 {
+            let refused = guarded(|| value_to_json_cid(&Poison(which)).map(|c| c.get_inner().to_string()).map_err(|e| e.to_string()));
+            let after = guarded(|| value_to_json_cid(jv).map(|c| c.get_inner().to_string()).map_err(|e| e.to_string()));
+            rep.case(&format!("stateful|{i}|{which}"), true, || json!({"statefulness_probe": i, "poison": which}));
+            rep.stat("statefulness_probes");
+            if !matches!(refused, Ok(Err(_))) { rep.stat("poison_value_not_refused"); }
+            if after != before { rep.oracle_fail(json!({"why": format!("the id of the same value changed after a refused id computation in between: {before:?} then {after:?}"), "input": {"value_json": serde_json::to_string(jv).unwrap_or_default(), "poison": which}})); return; }
+            let _ = guarded(|| verify_value(&CID::<Poison>::new("bagaaihra"), &Poison(which)));
+            if let Ok(Ok(id)) = &before {
+                let v = real_verify_value(id, jv);
+                if v != "Ok" { rep.oracle_fail(json!({"why": format!("verify_value rejects the matching (id, value) pair after a refused verification in between: {v}"), "input": {"cid": id, "value_json": serde_json::to_string(jv).unwrap_or_default(), "poison": which}})); return; }
+            }
+        }
+    }
+}
+
 pub fn run(ctx: &mut Ctx, rep: &mut Report) {
     rep.rule = "case = (a) one construction of a generated JSON value (nested arrays/objects with duplicate and permuted keys, unicode and escaped strings, boundary integers, floats as printed text): its id by value_to_json_cid / raw_value_to_json_cid vs the model and vs an id recomputed with the blake3 crate from an own canonical text; \
         (b) one (id text, value) pair given to verify_value and verify_raw_value: ids assembled from (version, codec, hash code, declared length, digest bytes, trailing bytes, varint style) in each of the 23 multibases, CIDv0, /ipfs/ prefixes, case swaps, plus a malformed stream (garbage, damaged ids, empty, non-ASCII); \
         non-trivial = (a) containers or strings needing escapes / (b) the id text decodes to a CID; distinct by hash of the id text and value".into();
+    statefulness_probe(rep);
     let mut rng = Rng::new(ctx.seed ^ 0xC25);
     let thorough = ctx.thorough;
     let n_values = if thorough { 100000 } else { 4000 };
